@@ -260,19 +260,29 @@ Definition rsp_expected (h : gomap) (n : bytes) : list bytes :=
   flat_map (fun e => if beq (lower_bytes (fst e)) n
                      then map fvalue (rsp_entry_fields (declared_trailers h) e) else []) h.
 
+Lemma field_values_keep_first n s l :
+  n <> n_content_length -> field_values n (keep_first_cl s l) = field_values n l.
+Proof.
+  intros Hn. revert s. induction l as [|f r IH]; intros s; auto. cbn [keep_first_cl].
+  unfold field_values in *. destruct (beq (fname f) n_content_length) eqn:E.
+  - apply beq_eq in E. cbn [filter]. replace (beq (fname f) n) with false by (symmetry; apply beq_neq; congruence).
+    destruct s; [apply IH|]. cbn [filter]. replace (beq (fname f) n) with false by (symmetry; apply beq_neq; congruence). apply IH.
+  - cbn [filter]. destruct (beq (fname f) n); cbn [map]; rewrite IH; reflexivity.
+Qed.
+
 Lemma field_values_rsp status h n :
-  is_pseudo n = false ->
+  is_pseudo n = false -> n <> n_content_length ->
   field_values n (rsp_fields status h) = rsp_expected h n.
 Proof.
-  intros Hn. unfold rsp_fields, rsp_expected.
+  intros Hn Hncl. unfold rsp_fields, rsp_expected.
   change (F (bs ":status") (itoa status) :: ?l) with ([F (bs ":status") (itoa status)] ++ l).
   rewrite field_values_app, (field_values_none n [_]).
   2:{ intros f [<-|[]] E. cbn [fname] in E. rewrite <- E in Hn. discriminate. }
-  cbn [app]. generalize (declared_trailers h). intros d.
+  cbn [app]. rewrite field_values_keep_first by auto. generalize (declared_trailers h). intros d.
   induction h as [|e r IH]; auto. cbn [flat_map]. rewrite field_values_app, IH. f_equal.
   destruct (beq (lower_bytes (fst e)) n) eqn:E.
-  - apply beq_eq in E. apply field_values_all. intros f Hf. apply rsp_entry_in in Hf as (_ & _ & v & _ & -> & _). auto.
-  - apply beq_neq in E. apply field_values_none. intros f Hf. apply rsp_entry_in in Hf as (_ & _ & v & _ & -> & _). auto.
+  - apply beq_eq in E. apply field_values_all. intros f Hf. apply rsp_entry_in in Hf as (_ & _ & _ & v & _ & -> & _). auto.
+  - apply beq_neq in E. apply field_values_none. intros f Hf. apply rsp_entry_in in Hf as (_ & _ & _ & v & _ & -> & _). auto.
 Qed.
 
 (** *** End-to-end on the header map (responses): whatever updateResponseFromHeaders accepts
@@ -296,10 +306,10 @@ Proof.
   assert (Hm : hget (canon n) (headers_of fs) = opt_values (field_values n fs)).
   { rewrite (header_map_values false lim fs n Hwf Tn Ln Hncl). destruct (field_values n fs); reflexivity. }
   unfold hdr_of. destruct (is_empty (last_value (bs "content-length") fs)); cbn [hHeaders].
-  - rewrite Hm. unfold fs. rewrite field_values_rsp by (apply token_not_pseudo; auto). reflexivity.
+  - rewrite Hm. unfold fs. rewrite field_values_rsp by (auto; apply token_not_pseudo; auto). reflexivity.
   - rewrite hget_hset. change (bs "Content-Length") with (canon (bs "content-length")).
     rewrite (canon_neq n (bs "content-length")) by (auto; vm_compute; reflexivity).
-    rewrite Hm. unfold fs. rewrite field_values_rsp by (apply token_not_pseudo; auto). reflexivity.
+    rewrite Hm. unfold fs. rewrite field_values_rsp by (auto; apply token_not_pseudo; auto). reflexivity.
 Qed.
 
 (** * Trailers *)
@@ -322,7 +332,7 @@ Proof.
 Qed.
 
 Definition trailers_expected (t : gomap) (n : bytes) : list bytes :=
-  flat_map (fun e => if beq (lower_bytes (fst e)) n && valid_to_send (fst e) then snd e else []) t.
+  flat_map (fun e => if beq (lower_bytes (fst e)) n && valid_to_send (fst e) then filter value_ok (snd e) else []) t.
 
 Lemma field_values_trailers t n :
   field_values n (flat_map trailer_entry_fields t) = trailers_expected t n.
@@ -337,13 +347,13 @@ Proof.
 Qed.
 
 (** *** End-to-end on trailers: the map parseTrailers returns for a written trailer section holds,
-    under every name, exactly the values of the sendable entries spelled like it. *)
+    under every name, exactly the sendable values of the sendable entries spelled like it. *)
 Theorem trailers_agree_values t fs lim n :
-  write_trailers t = Some fs -> tmap_ok t -> section_size fs <= lim ->
+  write_trailers t = Some fs -> section_size fs <= lim ->
   token_ok n = true -> lower_ok n = true ->
   exists m, parseTrailers lim fs false = inr m /\ hget (canon n) m = opt_values (trailers_expected t n).
 Proof.
-  intros Hw Hok Hsz Tn Ln. destruct (trailers_agree t fs lim Hw Hok Hsz) as [_ Hp].
+  intros Hw Hsz Tn Ln. destruct (trailers_agree t fs lim Hw Hsz) as [_ Hp].
   exists (trailers_of fs). split; auto.
   apply write_trailers_fields in Hw as (Hfs & _).
   assert (Hlim : 0 <= lim) by (pose proof (section_size_nonneg fs); lia).
@@ -400,10 +410,55 @@ Qed.
 (** what either writer puts on the stream as a trailer section passes the receive-side glue: in
     particular it is never the empty payload the QPACK decoder chokes on (seeded change C19-b) *)
 Theorem writer_decode_agree t fs maxb enclen :
-  write_trailers t = Some fs -> tmap_ok t -> enclen <= maxb -> section_size fs <= maxb ->
+  write_trailers t = Some fs -> enclen <= maxb -> section_size fs <= maxb ->
   decode_trailers maxb enclen false fs = inr (trailers_of fs).
 Proof.
-  intros Hw Hok He Hs. destruct (trailers_agree t fs maxb Hw Hok Hs) as [Hne Hp].
+  intros Hw He Hs. destruct (trailers_agree t fs maxb Hw Hs) as [Hne Hp].
   unfold decode_trailers. destruct (Z.ltb_spec maxb enclen); [lia|].
   destruct fs as [|f r]; [contradiction|]. rewrite Hp. reflexivity.
+Qed.
+
+(** * WriteHeader's defaults (rsp_prepare) *)
+
+Lemma get_exact_app k a b :
+  get_exact k (a ++ b) = match get_exact k a with Some v => Some v | None => get_exact k b end.
+Proof. induction a as [|[k' vs] r IH]; cbn [app get_exact]; auto. destruct (beq k k'); auto. Qed.
+
+Lemma get_exact_del k k' h :
+  get_exact k (del_exact k' h) = if beq k k' then None else get_exact k h.
+Proof.
+  induction h as [|[k0 vs0] r IH]; cbn [del_exact get_exact].
+  - destruct (beq k k'); reflexivity.
+  - destruct (beq k' k0) eqn:E0.
+    + rewrite IH. apply beq_eq in E0. subst k0. destruct (beq k k'); reflexivity.
+    + cbn [get_exact]. rewrite IH. destruct (beq k k') eqn:E1; [|reflexivity].
+      apply beq_eq in E1. subst k'. rewrite E0. reflexivity.
+Qed.
+
+(** After WriteHeader(status >= 200): a Date is present; a canonical Content-Length whose first
+    value is non-empty is numeric (a malformed one was deleted); every other key is untouched. *)
+Theorem rsp_prepare_spec d h :
+  get_exact (bs "Date") (rsp_prepare d h) <> None /\
+  (forall c cs, get_exact k_content_length (rsp_prepare d h) = Some (c :: cs) -> c <> [] -> exists v, parse_uint63 c = Some v) /\
+  (forall k, k <> bs "Date" -> k <> k_content_length -> get_exact k (rsp_prepare d h) = get_exact k h).
+Proof.
+  unfold rsp_prepare.
+  set (h1 := match get_exact (bs "Date") h with Some _ => h | None => h ++ [(bs "Date", [d])] end).
+  assert (Hd : get_exact (bs "Date") h1 <> None).
+  { unfold h1. destruct (get_exact (bs "Date") h) eqn:E; [congruence|].
+    rewrite get_exact_app, E. cbn. discriminate. }
+  assert (Ho : forall k, k <> bs "Date" -> get_exact k h1 = get_exact k h).
+  { intros k Hk. unfold h1. destruct (get_exact (bs "Date") h); auto. rewrite get_exact_app.
+    destruct (get_exact k h); auto. cbn [get_exact]. apply beq_neq in Hk. rewrite Hk. reflexivity. }
+  destruct (get_exact k_content_length h1) as [[|clen cs]|] eqn:Ec.
+  - split; auto. split; [intros c cs' E; congruence|auto].
+  - destruct (is_empty clen) eqn:Ee.
+    + split; auto. split; auto. intros c cs' E Hne. rewrite Ec in E. inversion E; subst. apply is_empty_true in Ee. contradiction.
+    + destruct (parse_uint63 clen) as [v|] eqn:Ep.
+      * split; auto. split; auto. intros c cs' E _. rewrite Ec in E. inversion E; subst. eauto.
+      * split; [|split].
+        -- rewrite get_exact_del. change (beq (bs "Date") k_content_length) with false. exact Hd.
+        -- intros c cs' E. rewrite get_exact_del, beq_refl in E. discriminate.
+        -- intros k Hk1 Hk2. rewrite get_exact_del. apply beq_neq in Hk2. rewrite Hk2. auto.
+  - split; auto. split; [intros c cs' E; congruence|auto].
 Qed.
